@@ -2,6 +2,7 @@ CONSTANTS
   MaxLen = 3
   Cap = 2
   AllowClose = TRUE
+  EmitUnlocked = FALSE
   StallFire = FALSE
   FixedTimer = FALSE
 SPECIFICATION Spec
